@@ -176,6 +176,31 @@ func (g *Gen) genTransfer() {
 			}
 		}
 	}
+	// a native denomination shaped like a voucher path of one of this chain's own channel ends
+	// ("transfer/<end>/rest"): send it over exactly that end most of the time, so that a refund re-parses
+	// the packet denomination as a voucher of the sending channel (the case the MsgTransfer guard exists for)
+	if w.hoplike && !strings.HasPrefix(denom, "ibc/") {
+		var mine []string
+		for _, d := range held {
+			if seg := strings.Split(d, "/"); len(seg) >= 3 && seg[0] == "transfer" {
+				for _, x := range ends {
+					if x.id == seg[1] {
+						mine = append(mine, d)
+					}
+				}
+			}
+		}
+		if len(mine) > 0 && g.r.Chance(0.25) {
+			denom = mine[g.r.Intn(len(mine))]
+		}
+		if seg := strings.Split(denom, "/"); len(seg) >= 3 && seg[0] == "transfer" && g.r.Chance(0.6) {
+			for _, x := range ends {
+				if x.id == seg[1] {
+					e = x
+				}
+			}
+		}
+	}
 	peer, _ := w.peerOf(e.l, c, e.id)
 	in := M{"f": "transfer", "chain": c, "port": "transfer", "chan": e.id, "denom": denom,
 		"amount": g.amount(get(snap.Bal, sender+"|"+denom)), "sender": sender, "signer": sender, "tx": true,
